@@ -312,6 +312,59 @@ func TestVerif_Forced(t *testing.T) {
 			}
 		}
 	}
+	// A table handle that was never registered (NewTable rejected it as a duplicate) must not give access to any table:
+	// while A holds every registered table, a WriteTxn through the rejected handle must not be granted.
+	if !isReplay {
+		idx++
+		db := statedb.New()
+		tabs := concw.NewTables(db, "t", 2)
+		dup, err := statedb.NewTable(db, "t0", concw.IDIndex, concw.TagIndex)
+		key, msg := "", ""
+		if err == nil {
+			key, msg = "duplicate-table-accepted", "NewTable with an existing name did not fail"
+		} else if dup != nil {
+			a := db.WriteTxn(tabs[0], tabs[1])
+			tabs[0].Insert(a, &concw.Row{ID: "seq", V: 1})
+			granted := make(chan string, 1)
+			go func() {
+				defer func() {
+					if p := recover(); p != nil {
+						granted <- "refused"
+					}
+				}()
+				w := db.NewHandle("dup").WriteTxn(dup)
+				dup.Insert(w, &concw.Row{ID: "other", V: 2})
+				w.Commit()
+				granted <- "granted"
+			}()
+			select {
+			case g := <-granted:
+				if g == "granted" {
+					key, msg = "two-holders/unregistered-handle", "a write transaction through the handle of a table that NewTable rejected (duplicate name) was granted and committed while another transaction holds every registered table"
+				}
+			case <-time.After(200 * time.Millisecond):
+				// blocked on its own lock or similar: not granted
+			}
+			committed := make(chan struct{})
+			go func() { a.Commit(); close(committed) }()
+			select {
+			case <-committed:
+			case <-time.After(20 * time.Second):
+				key, msg = "stuck/after-rejected-registration", "Commit does not finish after a rejected duplicate NewTable"
+			}
+			if key == "" {
+				rt := db.ReadTxn()
+				if concw.Get(rt, tabs[0], "seq") != 1 || concw.Get(rt, tabs[0], "other") != 0 || concw.Get(rt, tabs[1], "other") != 0 {
+					key, msg = "lost-write/unregistered-handle", "writes through an unregistered table handle reached a registered table or A's write was lost"
+				}
+			}
+		}
+		r.Count("probes", 1)
+		r.Case(vkit.NewHash().Str("dup-handle").Sum(), true)
+		if key != "" {
+			r.Violation(key, idx, map[string]any{"scenario": "unregistered duplicate handle", "message": msg})
+		}
+	}
 	for _, v := range ctl.Violations() {
 		r.Violation("monitor/"+v[:min(40, len(v))], 0, map[string]any{"message": v})
 	}
